@@ -389,8 +389,19 @@ impl Archive {
         file.read_exact(&mut footer_size_bytes)?;
         let footer_size = u64::from_le_bytes(footer_size_bytes);
 
-        // Seek to start of footer
-        file.seek(SeekFrom::Start(file_size - 8 - footer_size))?;
+        // Seek to start of footer. In a truncated or damaged file the last 8 bytes are garbage:
+        // range-check them against the file size instead of trusting them (an unchecked
+        // `file_size - 8 - footer_size` overflows, and the garbage value was then used as the
+        // size of the footer buffer).
+        let footer_start = file_size
+            .checked_sub(8)
+            .and_then(|v| v.checked_sub(footer_size))
+            .with_context(|| {
+                format!(
+                    "Invalid archive: footer size {footer_size} exceeds file size {file_size} (truncated or corrupt file)"
+                )
+            })?;
+        file.seek(SeekFrom::Start(footer_start))?;
 
         // Read footer into buffer
         let mut footer = vec![0u8; footer_size as usize];
